@@ -156,6 +156,8 @@ TRUSTED["C17"] = [
     "lazy-sum calculus (sums over a data block as uninterpreted functions of their summand template; the block extent is decided as NumPy's slice clamping decides it)",
     "mixed-radix index splitting: the flat index of an earlier split gives back those indices",
     "loop variable Hcov (an accumulated average that is never returned) is declared dead: havoc'ed in the generic iteration, unreadable after the loop",
+    "sqrt axiom: sqrt(N)^2 = N for the record length N > 0 (used by the lemma 'weights cancel')",
+    "ndarray.reshape(order='F') is modelled as transpose . reshape(reversed shape) . transpose",
 ]
 
 TRUSTED["C08"] = [
@@ -228,7 +230,7 @@ ASSUMPTIONS["C08"] = ["deductive part: the modal-parameter stage only (ssi.ac2mp
 NOT_DECIDED = {
     "C08": ["covariance under gain and channel permutation / orthogonal mixing for every algorithm class: bounded stand-in only (one random orthogonal mixing per data set; the multi-setup variants are exercised for gain and time unit only)",
             "unit normalisation of FDD / EFDD shapes is proved under C06 (FDD_mpe's contract), not repeated here"],
-    "C17": ["variance = squared directional derivative / sum of squares over several columns: bounded stand-in only (and it fails: open finding)",
+    "C17": ["variance = squared directional derivative / sum of squares over several columns, at every model order: bounded stand-in only (finite differences; holds since /repo 9cb106e)",
             "the last data block is one sample short when nb divides N (the block slice is clamped to the N-1 available columns) but is still divided by Nb: a small bias the "
             "property does not speak about; the contract models it exactly"],
     "C03": ["that the structure proved for SSI_multi_setup (thorough tier: per-setup observability matrices, reference / roving row selection with that setup's own stride, re-basing "
